@@ -156,8 +156,58 @@ def class_attr_holds_data(uni, ci, attr):
                             isinstance(t.value, ast.Name):
                         v = env.ev(n.value)
                         if any(x[0] in DATA_TAGS for x in v.tags | v.c1):
+                            if m.name == '__init__' and isinstance(
+                                    n.value, ast.Name) and \
+                                    _constructed_with_own_storage(
+                                        uni, ci, m, n.value.id, attr):
+                                continue
                             return True
     return False
+
+
+def _constructed_with_own_storage(uni, ci, init, pname, attr):
+    """Every construction site of the class hands, for constructor parameter
+    `pname`, a container built at that site (or, inside the class, the same
+    attribute of another instance): the attribute then never holds data."""
+    repo = uni.repo
+    ps = init.params()
+    if pname not in ps:
+        return False
+    pos = ps.index(pname) - 1
+    sites = 0
+    for f in repo.all_functions():
+        for c in model.calls_in(f.node, shallow=True):
+            if not isinstance(c.func, (ast.Name, ast.Attribute)):
+                continue
+            last = c.func.id if isinstance(c.func, ast.Name) else c.func.attr
+            if last != ci.node.name:
+                continue
+            tgt = repo.lookup(repo.resolve(
+                f.module, c.func, model.scope_locals(f)) or '')
+            if tgt is not ci:
+                if not (f.module is ci.module and isinstance(
+                        c.func, ast.Name)):
+                    continue
+            if any(isinstance(a, ast.Starred) for a in c.args) or any(
+                    k.arg is None for k in c.keywords):
+                return False
+            actual = None
+            if 0 <= pos < len(c.args):
+                actual = c.args[pos]
+            for k in c.keywords:
+                if k.arg == pname:
+                    actual = k.value
+            if actual is None:
+                return False
+            sites += 1
+            if f.cls is ci and isinstance(actual, ast.Attribute) and \
+                    actual.attr == attr and isinstance(
+                        actual.value, ast.Name) and actual.value.id == 'self':
+                continue
+            v = uni.env(f).ev(actual)
+            if not v.tags or any(t[0] != 'fresh' for t in v.tags | v.c1):
+                return False
+    return sites > 0
 
 
 def r09a_scope(uni):
